@@ -253,6 +253,11 @@ def _real(item):
             return h.elaborate(built.modules[top])
         if entry == "to_proto":
             return h.to_proto(built.modules[top])
+        if entry == "to_proto_list":
+            # a list of tops: healthy modules that do not contain the offending one (non-leaf ones first), then the faulty design
+            goods = [m for m in base["modules"] if m != top and m != offending and not contains(base, m, offending)]
+            goods.sort(key=lambda m: 0 if any(d[0] in ("inst", "array", "pair") and d[2][0] == "mod" for d in base["modules"][m]["decls"]) else 1)
+            return h.to_proto([built.modules[g] for g in goods[:2]] + [built.modules[top]])
         return h.netlist(built.modules[top], io.StringIO(), fmt="spice")
 
     try:
@@ -609,10 +614,12 @@ def run(ctx):
             n = len(mutate.classified(base))
             stride = 1 if not ctx.quick else 2
             for k in range(n):
-                for entry in ("to_proto",) if ctx.quick else ("elaborate", "to_proto", "netlist"):
+                for entry in ("to_proto", "to_proto_list") if ctx.quick else ("elaborate", "to_proto", "netlist", "to_proto_list"):
                     for cont in ("retry", "others", "others_parents_first", "other_parents", "edit_healthy", "repair"):
                         if ctx.quick and dname == "dag1h" and cont != "edit_healthy":
                             continue  # dag1h adds a late healthy module to dag1: its point is what happens to that module
+                        if entry == "to_proto_list" and cont not in ("edit_healthy", "others"):
+                            continue
                         # the other-parents continuation runs on every classified mutant in both tiers
                         if cont == "other_parents" or k % stride == ctx.seed % stride:
                             ritems.append((dname, top, k, entry, cont))
